@@ -81,11 +81,11 @@ def check(case):
             kindname = "input_changed"
         else:
             kindname = "dirty_scratch" if kind == "scratch" else "input_changed"
-        if cls == "no-deviation":
-            # a dirty qubit without any deviation from the ideal replay means the monitor is wrong
-            return {"status": "error", "key": key, "error": f"dirty qubit {q} but forensics found no deviation", "counters": cnt}
-        fails.append({"kind": kindname, "pred": pred,
-                      "msg": f"{len(o.dirty)} qubit(s) not restored, first qubit {q} ({kind}) on {nrows} inputs e.g. {asg}; first deviation of uncompute_all from the ideal replay: {devs[0]} class {cls}; "
+        # the observation (a qubit that is neither argument nor output ends non-zero) decides; the forensics only attribute.
+        # No deviation from the ideal replay means the replay did what it was asked and the qubit was never scheduled for
+        # uncomputation (e.g. it was on the keep list): unattributed, hence a violation
+        fails.append({"kind": kindname, "pred": pred if cls != "no-deviation" else None,
+                      "msg": f"{len(o.dirty)} qubit(s) not restored, first qubit {q} ({kind}) on {nrows} inputs e.g. {asg}; first deviation of uncompute_all from the ideal replay: {devs[0] if devs else None} class {cls}; "
                              f"outs={o.out_qubits} nq={o.nq} gates={[(type(g).__name__, w) for g, w, p in qc.gates][:60]}"})
     else:
         cnt["clean"] = 1
